@@ -590,6 +590,11 @@ func GenPresentation(t *rapid.T, ts Tables) (Presentation, int) {
 		}
 		for j := 0; j < nExtra; j++ {
 			name := rapid.SampledFrom(extraColNames).Draw(t, "extraColName")
+			if len(tb.Header) > 0 && rapid.IntRange(0, 3).Draw(t, "caseVariantOfKnownColumn") == 0 {
+				// an unknown column whose name differs from a known one only in letter case (column names are case-sensitive)
+				h := tb.Header[rapid.IntRange(0, len(tb.Header)-1).Draw(t, "variantOf")]
+				name = rapid.SampledFrom([]string{strings.ToUpper(h), strings.ToUpper(h[:1]) + h[1:]}).Draw(t, "variantShape")
+			}
 			if used[name] {
 				name = fmt.Sprintf("%s_%d", name, j)
 			}
